@@ -226,7 +226,7 @@ func (c *Ctx) trackerRules(rm map[string]string) {
 	// ---- R2 ownership
 	if id := rm["R2"]; id != "" {
 		n := 0
-		renick := c.Func(c.State, "(*stateTracker).ReNick")
+		renHelpers := c.renameHelpers()
 		for _, fn := range m.funcs {
 			for _, op := range mapOps(fn) {
 				if op.Kind != "update" && op.Kind != "delete" {
@@ -239,7 +239,7 @@ func (c *Ctx) trackerRules(rm map[string]string) {
 				if c.allOriginsLocalAlloc(op.Base, fn) {
 					continue
 				}
-				ok := fn == chanAdd || fn == chanDel || fn == nickAdd || fn == nickDel || (fn == renick && op.Field == m.chLookup)
+				ok := fn == chanAdd || fn == chanDel || fn == nickAdd || fn == nickDel || (renHelpers[fn] && op.Field == m.chLookup)
 				r.Add(id, fmt.Sprintf("owner:%s:%s:%s", c.FuncKey(fn), op.Field.Name(), op.Kind), c.InstrPos(op.In), c.FuncKey(fn), "membership maps are written only by the edit functions, constructors and the rename's re-keying", ok, "write in "+c.FuncKey(fn))
 			}
 		}
@@ -382,6 +382,61 @@ func posFn(c *Ctx, fn *ssa.Function) string {
 // the nick-map delete(old) and update(neu) of the same object, and a range
 // over the nick's channels whose body deletes old and stores neu in the
 // channel's lookup.
+// renStep is one effect of the rename, found in ReNick itself or in an
+// unexported helper it calls (ctx = the chain of call sites from ReNick down).
+type renStep struct {
+	in  ssa.Instruction
+	ctx []ssa.CallInstruction
+}
+
+func (s renStep) top() ssa.Instruction {
+	if len(s.ctx) > 0 {
+		return s.ctx[0]
+	}
+	return s.in
+}
+
+// renResolve follows parameters of helper instances back to the arguments of
+// the call sites in ctx.
+func renResolve(v ssa.Value, ctx []ssa.CallInstruction) (ssa.Value, []ssa.CallInstruction) {
+	for len(ctx) > 0 {
+		pr, ok := v.(*ssa.Parameter)
+		if !ok {
+			return v, ctx
+		}
+		cs := ctx[len(ctx)-1]
+		callee := cs.Common().StaticCallee()
+		idx := -1
+		for i, q := range callee.Params {
+			if q == pr {
+				idx = i
+			}
+		}
+		if idx < 0 || idx >= len(cs.Common().Args) {
+			return v, ctx
+		}
+		v, ctx = cs.Common().Args[idx], ctx[:len(ctx)-1]
+	}
+	return v, ctx
+}
+
+// renBefore: step a executes before step b on every path that executes both
+// (compared at the deepest function instance they share).
+func renBefore(a, b renStep) bool {
+	p := 0
+	for p < len(a.ctx) && p < len(b.ctx) && a.ctx[p] == b.ctx[p] {
+		p++
+	}
+	ia, ib := a.in, b.in
+	if len(a.ctx) > p {
+		ia = a.ctx[p]
+	}
+	if len(b.ctx) > p {
+		ib = b.ctx[p]
+	}
+	return ia != ib && instrDominates(ia, ib)
+}
+
 func (c *Ctx) renameRule(id string, m *trackerModel) {
 	r := c.R
 	fn := c.Func(c.State, "(*stateTracker).ReNick")
@@ -390,65 +445,206 @@ func (c *Ctx) renameRule(id string, m *trackerModel) {
 		return
 	}
 	r.Funcs[c.FuncKey(fn)] = true
-	old, neu := fn.Params[1], fn.Params[2]
+	old, neu := ssa.Value(fn.Params[1]), ssa.Value(fn.Params[2])
 	nameVar := c.FieldVar(c.State, "nick", "nick")
-	var nameStore, del, upd ssa.Instruction
-	var nk ssa.Value
-	funcInstrs(fn, func(in ssa.Instruction) {
-		if s, ok := in.(*ssa.Store); ok {
-			if fv, base := fieldOf(s.Addr); fv == nameVar && s.Val == ssa.Value(neu) {
-				nameStore, nk = in, base
+	// function instances: ReNick and the unexported state helpers it calls, two levels deep
+	type inst struct {
+		fn  *ssa.Function
+		ctx []ssa.CallInstruction
+	}
+	insts := []inst{{fn, nil}}
+	for i := 0; i < len(insts); i++ {
+		if len(insts[i].ctx) >= 2 {
+			continue
+		}
+		for _, cs := range CallSites(insts[i].fn) {
+			cal := cs.Common().StaticCallee()
+			if cal == nil || cs.Common().IsInvoke() || cal.Package() != c.State || !c.InModuleFn(cal) || (cal.Object() != nil && cal.Object().Exported()) {
+				continue
 			}
-		}
-	})
-	for _, op := range mapOps(fn) {
-		if op.Field == m.stNicks && op.Kind == "delete" && op.Key == ssa.Value(old) {
-			del = op.In
-		}
-		if op.Field == m.stNicks && op.Kind == "update" && op.Key == ssa.Value(neu) && op.Val == nk {
-			upd = op.In
+			if _, isCall := cs.(*ssa.Call); !isCall {
+				continue
+			}
+			insts = append(insts, inst{cal, append(append([]ssa.CallInstruction{}, insts[i].ctx...), cs)})
 		}
 	}
-	var loopDel, loopUpd ssa.Instruction
-	var rng ssa.Instruction
-	for _, op := range mapOps(fn) {
-		if op.Kind == "range" && op.Field == m.nkChans && op.Base == nk {
-			rng = op.In
+	res := func(v ssa.Value, ctx []ssa.CallInstruction) ssa.Value {
+		v2, _ := renResolve(v, ctx)
+		return v2
+	}
+	// the name store: nk.nick = neu
+	var nameStore *renStep
+	var nk ssa.Value
+	nNameStores := 0
+	for _, it := range insts {
+		funcInstrs(it.fn, func(in ssa.Instruction) {
+			if s, ok := in.(*ssa.Store); ok {
+				if fv, base := fieldOf(s.Addr); fv == nameVar && !c.allOriginsLocalAlloc(base, it.fn) {
+					nNameStores++
+					if res(s.Val, it.ctx) == neu {
+						nameStore = &renStep{in, it.ctx}
+						nk = res(base, it.ctx)
+					}
+				}
+			}
+		})
+	}
+	// name(v): v is the new / old name of nk
+	nameLoad := func(v ssa.Value, ctx []ssa.CallInstruction) (renStep, bool) {
+		v2, ctx2 := renResolve(v, ctx)
+		u, ok := v2.(*ssa.UnOp)
+		if !ok || u.Op != token.MUL {
+			return renStep{}, false
 		}
-		if op.Field == m.chLookup && op.Kind == "delete" && op.Key == ssa.Value(old) && c.LoopDepth(op.In.Block()) == 1 {
-			loopDel = op.In
+		fv, base := fieldOf(u.X)
+		if fv != nameVar || res(base, ctx2) != nk {
+			return renStep{}, false
 		}
-		if op.Field == m.chLookup && op.Kind == "update" && op.Key == ssa.Value(neu) && op.Val == nk && c.LoopDepth(op.In.Block()) == 1 {
-			loopUpd = op.In
+		return renStep{u, ctx2}, true
+	}
+	isOld := func(v ssa.Value, ctx []ssa.CallInstruction) bool {
+		if res(v, ctx) == old {
+			return true
+		}
+		if ld, ok := nameLoad(v, ctx); ok && nameStore != nil && nNameStores == 1 {
+			return renBefore(ld, *nameStore) // the name as it was before the store
+		}
+		return false
+	}
+	isNeu := func(v ssa.Value, ctx []ssa.CallInstruction) bool {
+		if res(v, ctx) == neu {
+			return true
+		}
+		if ld, ok := nameLoad(v, ctx); ok && nameStore != nil && nNameStores == 1 {
+			return renBefore(*nameStore, ld)
+		}
+		return false
+	}
+	var del, upd, rng, loopDel, loopUpd *renStep
+	depthOf := func(st renStep) int {
+		d := c.LoopDepth(st.in.Block())
+		for _, cs := range st.ctx {
+			d += c.LoopDepth(cs.Block())
+		}
+		return d
+	}
+	for _, it := range insts {
+		for _, op := range mapOps(it.fn) {
+			st := &renStep{op.In, it.ctx}
+			switch {
+			case op.Field == m.stNicks && op.Kind == "delete" && isOld(op.Key, it.ctx):
+				del = st
+			case op.Field == m.stNicks && op.Kind == "update" && isNeu(op.Key, it.ctx) && nk != nil && res(op.Val, it.ctx) == nk:
+				upd = st
+			case op.Kind == "range" && op.Field == m.nkChans && nk != nil && res(op.Base, it.ctx) == nk:
+				rng = st
+			case op.Field == m.chLookup && op.Kind == "delete" && isOld(op.Key, it.ctx) && depthOf(*st) == 1:
+				loopDel = st
+			case op.Field == m.chLookup && op.Kind == "update" && isNeu(op.Key, it.ctx) && nk != nil && res(op.Val, it.ctx) == nk && depthOf(*st) == 1:
+				loopUpd = st
+			}
 		}
 	}
 	have := nameStore != nil && del != nil && upd != nil && rng != nil && loopDel != nil && loopUpd != nil
-	r.Add(id, "rename-steps", c.Pos(fn.Pos()), c.FuncKey(fn), "ReNick contains: name store, nick-map delete(old)+store(neu), range over the nick's channels with lookup delete(old)+store(neu)", have,
+	r.Add(id, "rename-steps", c.Pos(fn.Pos()), c.FuncKey(fn), "ReNick (with its helpers) contains: name store, nick-map delete(old)+store(neu), range over the nick's channels with lookup delete(old)+store(neu)", have,
 		fmt.Sprintf("name=%v del=%v upd=%v range=%v loopDel=%v loopUpd=%v", nameStore != nil, del != nil, upd != nil, rng != nil, loopDel != nil, loopUpd != nil))
 	if !have {
 		return
 	}
-	okLoop := loopDel.Block() == loopUpd.Block()
-	if okLoop {
-		// the loop body block is the range's per-element block: dominated by the Next's ok edge
-		okLoop = blockDom(rng.Block(), loopDel.Block())
+	// both lookup edits happen once per iteration of the range over the nick's channels: they sit in the same block of
+	// the same function instance, and the path down to them enters the range's body
+	sameInst := len(loopDel.ctx) == len(loopUpd.ctx)
+	for i := range loopDel.ctx {
+		if sameInst && loopDel.ctx[i] != loopUpd.ctx[i] {
+			sameInst = false
+		}
 	}
-	r.Add(id, "rename-loop-body", c.InstrPos(loopDel), c.FuncKey(fn), "each channel of the nick is re-keyed (delete old, store new in the same iteration)", okLoop, "same block inside the range")
-	// every success return passes all straight-line steps and the range
+	okLoop := sameInst && loopDel.in.Block() == loopUpd.in.Block()
+	if okLoop {
+		var inBody ssa.Instruction = loopDel.in
+		if len(loopDel.ctx) > len(rng.ctx) {
+			inBody = loopDel.ctx[len(rng.ctx)]
+		}
+		okLoop = len(loopDel.ctx) >= len(rng.ctx) && blockDom(rng.in.Block(), inBody.Block()) && c.LoopDepth(inBody.Block()) == 1
+		for i := range rng.ctx {
+			if okLoop && rng.ctx[i] != loopDel.ctx[i] {
+				okLoop = false
+			}
+		}
+		// inside deeper helpers the edits are unconditional
+		for lvl := len(rng.ctx) + 1; okLoop && lvl <= len(loopDel.ctx); lvl++ {
+			hf := loopDel.ctx[lvl-1].Common().StaticCallee()
+			var tgt1, tgt2 ssa.Instruction = loopDel.in, loopUpd.in
+			if lvl < len(loopDel.ctx) {
+				tgt1, tgt2 = loopDel.ctx[lvl], loopDel.ctx[lvl]
+			}
+			p1, _ := AllPathsFromEntryPass(hf, func(x ssa.Instruction) bool { return x == tgt1 })
+			p2, _ := AllPathsFromEntryPass(hf, func(x ssa.Instruction) bool { return x == tgt2 })
+			okLoop = p1 && p2
+		}
+	}
+	r.Add(id, "rename-loop-body", c.InstrPos(loopDel.in), c.FuncKey(loopDel.in.Parent()), "each channel of the nick is re-keyed (delete old, store new in the same iteration)", okLoop, "both edits unconditionally inside the range over the nick's channels")
+	// every success return passes all steps: the step (or the call leading to it) dominates the return, and inside
+	// each helper on the way the next call / the step lies on every path
 	funcInstrs(fn, func(in ssa.Instruction) {
 		rt, ok := in.(*ssa.Return)
 		if !ok || len(rt.Results) != 1 || isNilConst(retVal(rt, 0)) {
 			return
 		}
 		okAll := true
-		why := "all re-keying steps dominate this success return"
-		for _, step := range []ssa.Instruction{nameStore, del, upd, rng} {
-			if !instrDominates(step, rt) {
-				okAll, why = false, "success return not preceded by the step at "+c.InstrPos(step)
+		why := "all re-keying steps precede this success return on every path"
+		for _, step := range []*renStep{nameStore, del, upd, rng} {
+			if !instrDominates(step.top(), rt) {
+				okAll, why = false, "success return not preceded by the step at "+c.InstrPos(step.in)
+				continue
+			}
+			for lvl := 1; lvl <= len(step.ctx); lvl++ {
+				hf := step.ctx[lvl-1].Common().StaticCallee()
+				var tgt ssa.Instruction = step.in
+				if lvl < len(step.ctx) {
+					tgt = step.ctx[lvl]
+				}
+				if p, _ := AllPathsFromEntryPass(hf, func(x ssa.Instruction) bool { return x == tgt }); !p {
+					okAll, why = false, "the step at "+c.InstrPos(step.in)+" is conditional inside "+c.FuncKey(hf)
+				}
 			}
 		}
 		r.Add(id, "rename-complete", c.InstrPos(rt), c.FuncKey(fn), "a successful rename has re-keyed everything", okAll, why)
 	})
+}
+
+// renameHelpers: unexported state functions all of whose callers are ReNick
+// or other such helpers (the rename's own re-keying code).
+func (c *Ctx) renameHelpers() map[*ssa.Function]bool {
+	out := map[*ssa.Function]bool{}
+	renick := c.Func(c.State, "(*stateTracker).ReNick")
+	if renick == nil {
+		return out
+	}
+	out[renick] = true
+	for changed := true; changed; {
+		changed = false
+		for _, fn := range c.stateFuncs() {
+			if out[fn] || fn.Object() == nil || fn.Object().Exported() || addrTaken(fn) {
+				continue
+			}
+			sites := c.staticCallers(fn)
+			if len(sites) == 0 {
+				continue
+			}
+			all := true
+			for _, cs := range sites {
+				if !out[cs.Parent()] {
+					all = false
+				}
+			}
+			if all {
+				out[fn] = true
+				changed = true
+			}
+		}
+	}
+	return out
 }
 
 // gcRule: after a nick-side delete (outside the nick deletion itself) the
@@ -962,6 +1158,48 @@ func (c *Ctx) matchArg(v ssa.Value, spec argSpec, line ssa.Value) (bool, string)
 	return false, "unknown spec"
 }
 
+// guardHelper: cal is an unexported client function returning one bool whose
+// every branch condition is itself an allowed guard and whose every return
+// value is a boolean constant (so its answer is decided by those guards).
+func (c *Ctx) guardHelper(cal *ssa.Function) bool {
+	if cal.Package() != c.Client || !c.InModuleFn(cal) || cal.Object() == nil || cal.Object().Exported() {
+		return false
+	}
+	res := cal.Signature.Results()
+	if res.Len() != 1 {
+		return false
+	}
+	if b, ok := res.At(0).Type().Underlying().(*types.Basic); !ok || b.Kind() != types.Bool {
+		return false
+	}
+	if c.guardBusy == nil {
+		c.guardBusy = map[*ssa.Function]bool{}
+	}
+	if c.guardBusy[cal] {
+		return false
+	}
+	c.guardBusy[cal] = true
+	defer delete(c.guardBusy, cal)
+	ok := true
+	funcInstrs(cal, func(in ssa.Instruction) {
+		switch t := in.(type) {
+		case *ssa.If:
+			if !c.allowedGuard(Cond{V: t.Cond, True: true, If: t}, nil) {
+				ok = false
+			}
+		case *ssa.Return:
+			for _, o := range c.originsLocal(retVal(t, 0)) {
+				if k, isK := o.(*ssa.Const); !isK || k.Value == nil || k.Value.Kind() != constant.Bool {
+					if !c.allowedGuard(Cond{V: o, True: true}, nil) {
+						ok = false
+					}
+				}
+			}
+		}
+	})
+	return ok
+}
+
 // allowedGuard: the condition is one of the guard kinds a state handler may
 // use: argument count, nil test of a tracker snapshot / IsOn result, the
 // own-nick test Me().Equals(nk), or an emptiness test on a split name.
@@ -978,6 +1216,11 @@ func (c *Ctx) allowedGuard(cd Cond, line ssa.Value) bool {
 			if mc, ok := v.Call.Args[0].(*ssa.Call); ok && mc.Call.StaticCallee() != nil && mc.Call.StaticCallee().Name() == "Me" {
 				return true
 			}
+		}
+		// an unexported helper of the client whose boolean answer is decided by guards of these kinds alone
+		// (e.g. "the tracker knows this channel")
+		if cal := v.Call.StaticCallee(); cal != nil && !v.Call.IsInvoke() && c.guardHelper(cal) {
+			return true
 		}
 		return false
 	case *ssa.BinOp:
@@ -1074,50 +1317,59 @@ func runC13(c *Ctx) {
 	// 353: per name Associate(channel of Args[2], name) and prefix->mode map
 	c.namesRule(a.StTable["353"])
 
-	// ---- R2 / R3
+	// ---- R2 / R3 (tracker calls made directly or one unexported helper level down, arguments resolved to the
+	// handler's own values; the handler-level position of such a call is its anchor)
 	nNC, nNN := 0, 0
-	for _, h := range a.StTable {
-		for _, cs := range CallSites(h) {
-			if !c.isTrackerCall(cs) {
-				continue
-			}
-			switch cs.Common().Method.Name() {
-			case "NewChannel":
-				nNC++
-				okMe := false
-				for _, cd := range CondsAt(cs.Block()) {
-					cd2 := unwrapNot(cd)
-					if call, ok := cd2.V.(*ssa.Call); ok && calleeName(&call.Call) == "(*"+modPath+"/state.Nick).Equals" && cd2.True {
-						okMe = true
-					}
+	var stKeys []string
+	for k := range a.StTable {
+		stKeys = append(stKeys, k)
+	}
+	sort.Strings(stKeys)
+	doneH := map[*ssa.Function]bool{}
+	for _, k := range stKeys {
+		h := a.StTable[k]
+		if doneH[h] {
+			continue
+		}
+		doneH[h] = true
+		line := ssa.Value(h.Params[1])
+		assoc := c.deepTrackerCalls(h, "Associate")
+		isAssoc := func(in ssa.Instruction, idx int, val ssa.Value) bool {
+			for _, dc := range assoc {
+				if dc.Anchor == in && idx < len(dc.Args) && c.sameLineExpr(dc.Args[idx], val, line) {
+					return true
 				}
-				ch := cs.Common().Args[0]
-				line := ssa.Value(h.Params[1])
-				okAssoc, _ := AllPathsPass(cs, false, func(in ssa.Instruction) bool {
-					return c.isTrackerCall(in) && callOf(in).Method.Name() == "Associate" && c.sameLineExpr(callOf(in).Args[0], ch, line)
-				})
-				r.Add("R2", "newchannel:"+c.FuncKey(h), c.InstrPos(cs), c.FuncKey(h), "a channel is tracked only for the client's own join and is then associated", okMe && okAssoc, fmt.Sprintf("own-nick test=%v, Associate on all paths=%v", okMe, okAssoc))
-			case "NewNick":
-				nNN++
-				nk := cs.Common().Args[0]
-				line := ssa.Value(h.Params[1])
-				// on every path an Associate(_, nk) or a true IsOn for the same nick
-				okAssoc, bad := AllPathsPass(cs, false, func(in ssa.Instruction) bool {
-					if c.isTrackerCall(in) && callOf(in).Method.Name() == "Associate" && c.sameLineExpr(callOf(in).Args[1], nk, line) {
-						return true
-					}
-					return false
-				})
-				why := "Associate of the new nick on every path"
-				if !okAssoc {
-					// accept paths that skip Associate only through the IsOn-true edge (already associated)
+			}
+			return false
+		}
+		for _, dc := range c.deepTrackerCalls(h, "NewChannel") {
+			nNC++
+			okMe := false
+			for _, cd := range append(append([]Cond{}, CondsAt(dc.Anchor.Block())...), dc.Inner...) {
+				cd2 := unwrapNot(cd)
+				if call, ok := cd2.V.(*ssa.Call); ok && calleeName(&call.Call) == "(*"+modPath+"/state.Nick).Equals" && cd2.True {
+					okMe = true
+				}
+			}
+			ch := dc.Args[0]
+			okAssoc, _ := AllPathsPass(dc.Anchor, false, func(in ssa.Instruction) bool { return isAssoc(in, 0, ch) })
+			r.Add("R2", "newchannel:"+c.FuncKey(h), c.InstrPos(dc.Site), c.FuncKey(h), "a channel is tracked only for the client's own join and is then associated", okMe && okAssoc, fmt.Sprintf("own-nick test=%v, Associate on all paths=%v", okMe, okAssoc))
+		}
+		for _, dc := range c.deepTrackerCalls(h, "NewNick") {
+			nNN++
+			nk := dc.Args[0]
+			okAssoc, bad := AllPathsPass(dc.Anchor, false, func(in ssa.Instruction) bool { return isAssoc(in, 1, nk) })
+			why := "Associate of the new nick on every path"
+			if !okAssoc {
+				// accept paths that skip Associate only through the IsOn-true edge (already associated)
+				if cs, isCS := dc.Anchor.(ssa.CallInstruction); isCS {
 					okAssoc = c.onlySkippedByIsOn(cs, nk)
-					if !okAssoc {
-						why = "a path to " + c.InstrPos(bad) + " leaves the new nick without a channel"
-					}
 				}
-				r.Add("R3", "newnick:"+c.FuncKey(h), c.InstrPos(cs), c.FuncKey(h), "a new nick is always associated with a channel", okAssoc, why)
+				if !okAssoc {
+					why = "a path to " + c.InstrPos(bad) + " leaves the new nick without a channel"
+				}
 			}
+			r.Add("R3", "newnick:"+c.FuncKey(h), c.InstrPos(dc.Site), c.FuncKey(h), "a new nick is always associated with a channel", okAssoc, why)
 		}
 	}
 	r.Floor("R2", "NewChannel call sites", nNC, 1)
